@@ -55,15 +55,17 @@ type ModelDriver struct {
 	volume    uint64
 	// UpdateReports makes UpdateURR return a usage report, as gtp5g does when it restarts the measurement.
 	UpdateReports bool
+	// Hook, when set, runs at the start of every call on the caller's (the event loop's) goroutine; it may block to keep the loop busy.
+	Hook func(op, kind string, seid uint64, id uint32)
 }
 
 func NewModelDriver() *ModelDriver {
 	return &ModelDriver{Rules: map[RuleKey][]byte{}, Faults: map[int]string{}}
 }
 
-func (d *ModelDriver) Close()                          {}
-func (d *ModelDriver) HandleReport(h report.Handler)   { d.handler = h }
-func (d *ModelDriver) Handler() report.Handler         { return d.handler }
+func (d *ModelDriver) Close()                        {}
+func (d *ModelDriver) HandleReport(h report.Handler) { d.handler = h }
+func (d *ModelDriver) Handler() report.Handler       { return d.handler }
 func (d *ModelDriver) SetFaults(fs []Fault) {
 	d.mu.Lock()
 	d.Faults = map[int]string{}
@@ -133,6 +135,9 @@ func ieBytes(i *ie.IE) []byte {
 }
 
 func (d *ModelDriver) do(op, kind string, seid uint64, id uint32, body *ie.IE) error {
+	if h := d.Hook; h != nil {
+		h(op, kind, seid, id)
+	}
 	d.mu.Lock()
 	defer d.mu.Unlock()
 	c := Call{Op: op, Kind: kind, SEID: seid, ID: id, Idx: -1}
@@ -210,25 +215,51 @@ func (d *ModelDriver) reports(op string, seid uint64, urrid uint32) []report.USA
 	}}
 }
 
-func pdrID(i *ie.IE) uint32  { v, _ := i.PDRID(); return uint32(v) }
-func farID(i *ie.IE) uint32  { v, _ := i.FARID(); return v }
-func qerID(i *ie.IE) uint32  { v, _ := i.QERID(); return v }
-func urrID(i *ie.IE) uint32  { v, _ := i.URRID(); return v }
-func barID(i *ie.IE) uint32  { v, _ := i.BARID(); return uint32(v) }
+func pdrID(i *ie.IE) uint32 { v, _ := i.PDRID(); return uint32(v) }
+func farID(i *ie.IE) uint32 { v, _ := i.FARID(); return v }
+func qerID(i *ie.IE) uint32 { v, _ := i.QERID(); return v }
+func urrID(i *ie.IE) uint32 { v, _ := i.URRID(); return v }
+func barID(i *ie.IE) uint32 { v, _ := i.BARID(); return uint32(v) }
 
-func (d *ModelDriver) CreatePDR(s uint64, i *ie.IE) error { return d.do("create", "PDR", s, pdrID(i), i) }
-func (d *ModelDriver) UpdatePDR(s uint64, i *ie.IE) error { return d.do("update", "PDR", s, pdrID(i), i) }
-func (d *ModelDriver) RemovePDR(s uint64, i *ie.IE) error { return d.do("remove", "PDR", s, pdrID(i), nil) }
-func (d *ModelDriver) CreateFAR(s uint64, i *ie.IE) error { return d.do("create", "FAR", s, farID(i), i) }
-func (d *ModelDriver) UpdateFAR(s uint64, i *ie.IE) error { return d.do("update", "FAR", s, farID(i), i) }
-func (d *ModelDriver) RemoveFAR(s uint64, i *ie.IE) error { return d.do("remove", "FAR", s, farID(i), nil) }
-func (d *ModelDriver) CreateQER(s uint64, i *ie.IE) error { return d.do("create", "QER", s, qerID(i), i) }
-func (d *ModelDriver) UpdateQER(s uint64, i *ie.IE) error { return d.do("update", "QER", s, qerID(i), i) }
-func (d *ModelDriver) RemoveQER(s uint64, i *ie.IE) error { return d.do("remove", "QER", s, qerID(i), nil) }
-func (d *ModelDriver) CreateBAR(s uint64, i *ie.IE) error { return d.do("create", "BAR", s, barID(i), i) }
-func (d *ModelDriver) UpdateBAR(s uint64, i *ie.IE) error { return d.do("update", "BAR", s, barID(i), i) }
-func (d *ModelDriver) RemoveBAR(s uint64, i *ie.IE) error { return d.do("remove", "BAR", s, barID(i), nil) }
-func (d *ModelDriver) CreateURR(s uint64, i *ie.IE) error { return d.do("create", "URR", s, urrID(i), i) }
+func (d *ModelDriver) CreatePDR(s uint64, i *ie.IE) error {
+	return d.do("create", "PDR", s, pdrID(i), i)
+}
+func (d *ModelDriver) UpdatePDR(s uint64, i *ie.IE) error {
+	return d.do("update", "PDR", s, pdrID(i), i)
+}
+func (d *ModelDriver) RemovePDR(s uint64, i *ie.IE) error {
+	return d.do("remove", "PDR", s, pdrID(i), nil)
+}
+func (d *ModelDriver) CreateFAR(s uint64, i *ie.IE) error {
+	return d.do("create", "FAR", s, farID(i), i)
+}
+func (d *ModelDriver) UpdateFAR(s uint64, i *ie.IE) error {
+	return d.do("update", "FAR", s, farID(i), i)
+}
+func (d *ModelDriver) RemoveFAR(s uint64, i *ie.IE) error {
+	return d.do("remove", "FAR", s, farID(i), nil)
+}
+func (d *ModelDriver) CreateQER(s uint64, i *ie.IE) error {
+	return d.do("create", "QER", s, qerID(i), i)
+}
+func (d *ModelDriver) UpdateQER(s uint64, i *ie.IE) error {
+	return d.do("update", "QER", s, qerID(i), i)
+}
+func (d *ModelDriver) RemoveQER(s uint64, i *ie.IE) error {
+	return d.do("remove", "QER", s, qerID(i), nil)
+}
+func (d *ModelDriver) CreateBAR(s uint64, i *ie.IE) error {
+	return d.do("create", "BAR", s, barID(i), i)
+}
+func (d *ModelDriver) UpdateBAR(s uint64, i *ie.IE) error {
+	return d.do("update", "BAR", s, barID(i), i)
+}
+func (d *ModelDriver) RemoveBAR(s uint64, i *ie.IE) error {
+	return d.do("remove", "BAR", s, barID(i), nil)
+}
+func (d *ModelDriver) CreateURR(s uint64, i *ie.IE) error {
+	return d.do("create", "URR", s, urrID(i), i)
+}
 
 func (d *ModelDriver) UpdateURR(s uint64, i *ie.IE) ([]report.USAReport, error) {
 	id := urrID(i)
